@@ -17,7 +17,7 @@ EXPLANATION = (
     "reader's arithmetic is value-level and not decided.")
 # every anchor of these rules lives in the h3 crate: thorough tier repeats them on the feature-less build
 EXTRA_CONFIGS = ["h3-plain"]
-RULES = "C04-a control dispatch tables (A3); C04-b stream classification (A3); C04-c frame acted on exactly once, Pending only from the control stream itself (A8/A3); C04-d who may claim slots (A10); C04-e memo cleared (A2); C04-f varint decoded only when complete (A5); shared through a proxy: C16-a under C04-f"
+RULES = "C04-a control dispatch tables (A3); C04-b stream classification (A3); C04-c frame acted on exactly once, Pending only from the control stream itself (A8/A3); C04-d who may claim slots (A10); C04-e memo cleared (A2); C04-f varint decoded only when complete (A5); shared through a proxy: C16-a under C04-f; C02-e (got_frame_error) under C04-a; C06-b (control loops) under C04-c"
 
 CI = "h3::connection::ConnectionInner::"
 PN = "h3::frame::FrameStream::poll_next"
@@ -367,3 +367,11 @@ def run(ctx):
     if not getattr(ctx, "nested", False):
         from rules import C16 as _c16p, shared as _shp
         _c16p.run(_shp.Proxy(ctx, ("C16-a",), "C04-f"))
+        # which code a frame error of the control stream is raised with (reserved HTTP/2 types -> H3_FRAME_UNEXPECTED, malformed ->
+        # H3_FRAME_ERROR, ..) is the error table of C02-e
+        from rules import C02 as _c02p
+        _c02p.run(_shp.Proxy(ctx, ("C02-e",), "C04-a", only=("got_frame_error",)))
+        # the driver keeps reading the control stream for as long as it is polled: a Pending that did not come from a callee (C06-b) on
+        # the two control loops means frames - and rule violations - behind it are never looked at
+        from rules import C06 as _c06p
+        _c06p.run(_shp.Proxy(ctx, ("C06-b",), "C04-c", only=("Connection::poll_control", "ConnectionInner::poll_control", "Connection::poll_next_control", "Connection::poll_close")))
